@@ -844,9 +844,8 @@ func SetFinalStatsForQid(qid uint64, nodeResult *structs.NodeResult) error {
 
 func SetAllColsInAggsForQid(qid uint64, allCols map[string]struct{}) {
 	arqMapLock.RLock()
-	defer arqMapLock.RUnlock()
-
 	rQuery, ok := allRunningQueries[qid]
+	arqMapLock.RUnlock()
 	if !ok {
 		log.Errorf("SetAllColsInAggsForQid: qid %+v does not exist!", qid)
 		return
@@ -859,9 +858,8 @@ func SetAllColsInAggsForQid(qid uint64, allCols map[string]struct{}) {
 
 func GetAllColsInAggsForQid(qid uint64) (map[string]struct{}, error) {
 	arqMapLock.RLock()
-	defer arqMapLock.RUnlock()
-
 	rQuery, ok := allRunningQueries[qid]
+	arqMapLock.RUnlock()
 	if !ok {
 		return nil, fmt.Errorf("GetAllColsInAggsForQid: qid: %v does not exist", qid)
 	}
